@@ -1,6 +1,6 @@
 """C03 - derived members equal re-derivation from the defined members along the C3 order (bounded stand-in).
 
-Three parts, all on the real modelx:
+Four parts, all on the real modelx:
 
  A. `SpaceGraph.get_mro` against CPython's own C3 (`type(n, bases, {}).__mro__`) on *all* ordered-base DAGs
     (graph level), and `space.bases` / rejection of hierarchies without a linearisation through the public API.
@@ -10,6 +10,10 @@ Three parts, all on the real modelx:
     independent cache-free evaluator that resolves names in the sub space.
  C. seeded random histories beyond the exhaustive bound (more spaces, longer histories, nested layouts,
     def-style formulas, all three reference modes).
+ D. histories on the ordered base LIST of one space with 3-4 direct bases: any subset of them removed (one
+    remove_bases call or several), then bases added (removed ones again / a space that never was a base; one
+    add_bases call or several): `bases` and every derived member must be those of a fresh space created with
+    the same ordered direct bases (survivors in their original order, then the added ones).
 
 The executed API calls are text lines (`exec`), so the replay script of a failure is exactly what was run.
 """
